@@ -68,7 +68,12 @@ type scenario struct {
 	rows      []rowS
 	matchers  []matcherS
 	enrichers []enricherS
-	api       string // enriched | scan | match
+	api       string // enriched | scan | match | new
+	// api "new": libvuln.New builds the matcher set from the registry (scripted
+	// factories), MatcherNames / MatcherConfigs and the out-of-tree matchers oot
+	factories []factoryS
+	oot       []int
+	nw        *newS
 	ctx       string // live | cancelled
 	// cancelAtEnricher > 0: enricher number cancelAtEnricher-1 cancels the caller's
 	// Context from inside Enrich (oracle-only scenarios: the outcome is not determined)
@@ -136,6 +141,9 @@ func (s *scenario) lines(tag string) []string {
 	}
 	for _, e := range s.enrichers {
 		out = append(out, fmt.Sprintf("enricher kind=%d msgs=%s fail=%d sees=%d", e.kind, ints(e.msgs), b2i(e.fail), b2i(e.sees)))
+	}
+	if s.api == "new" {
+		out = append(out, s.setupLines()...)
 	}
 	scan := fmt.Sprintf("scan %s %s", s.api, s.ctx)
 	if tag != "" {
@@ -226,12 +234,14 @@ func genScenario(r *hx.Rand, count func(string)) *scenario {
 	}
 	count("matchers=" + bucket(nm))
 	switch c := r.Intn(100); {
-	case c < 50:
+	case c < 40:
 		s.api = "enriched"
-	case c < 75:
+	case c < 58:
 		s.api = "scan"
-	default:
+	case c < 80:
 		s.api = "match"
+	default:
+		s.api = "new"
 	}
 	s.ctx = "live"
 	if r.Chance(1, 10) {
@@ -321,6 +331,9 @@ func genScenario(r *hx.Rand, count func(string)) *scenario {
 			e.msgs = append(e.msgs, r.Intn(50))
 		}
 		s.enrichers = append(s.enrichers, e)
+	}
+	if s.api == "new" {
+		genSetup(r, s, count)
 	}
 	return s
 }
@@ -493,6 +506,49 @@ func parseScenario(lines []string) (*scenario, error) {
 				return bad(err)
 			}
 			sc.enrichers = append(sc.enrichers, e)
+		case "factory":
+			kv := kvs(f[1:])
+			fs := factoryS{name: kv["name"], cfgable: kv["cfgable"] == "1", cfgok: kv["cfgok"] == "1"}
+			if kv["plain"] == "err" {
+				fs.plainErr = true
+			} else if fs.plain, err = parseInts(kv["plain"]); err != nil {
+				return bad(err)
+			}
+			if kv["cfgd"] == "err" {
+				fs.cfgdErr = true
+			} else if fs.cfgd, err = parseInts(kv["cfgd"]); err != nil {
+				return bad(err)
+			}
+			sc.factories = append(sc.factories, fs)
+		case "regdefault":
+			// describes the real registry; regenerated from it
+			if sc.nw == nil {
+				sc.nw = &newS{rhelCfgOK: true}
+			}
+			if kv := kvs(f[1:]); kv["name"] == "rhel" {
+				sc.nw.rhelCfgOK = kv["cfgok"] == "1"
+			}
+		case "oot":
+			if len(f) != 2 {
+				return bad(fmt.Errorf("want one argument"))
+			}
+			if sc.oot, err = parseInts(f[1]); err != nil {
+				return bad(err)
+			}
+		case "new":
+			kv := kvs(f[1:])
+			if sc.nw == nil {
+				sc.nw = &newS{rhelCfgOK: true}
+			}
+			sc.nw.store, sc.nw.client = kv["store"] == "1", kv["client"] == "1"
+			sc.nw.ret, _ = strconv.Atoi(kv["ret"])
+			sc.nw.namesNil = kv["names"] == "nil"
+			if !sc.nw.namesNil && kv["names"] != "-" {
+				sc.nw.names = strings.Split(kv["names"], ",")
+			}
+			if kv["cfgs"] != "-" && kv["cfgs"] != "" {
+				sc.nw.cfgs = strings.Split(kv["cfgs"], ",")
+			}
 		case "scan":
 			if len(f) < 3 {
 				return bad(fmt.Errorf("want api and ctx"))
